@@ -114,6 +114,10 @@ def run(ctx):
             p2 = rng.choice([1, 2, 3]); p3 = rng.choice([1, 2, 3]); p4 = rng.choice([1, 3, 9])
             if ty == 9: p1 = rng.choice([1, 3, 8]); p3 = rng.choice([1, 2])
             lcases.append('ledger %d %d %d %d %d' % (ty, p1, p2, p3, p4))
+    # array constructors, FFT-domain objects (types 15-17, 20-32): balance only
+    for ty in list(range(15, 18)) + list(range(20, 33)):
+        p1 = 1024 if ty in (15, 16, 17, 21, 27, 31) else rng.choice([1, 3, 8, 17])
+        lcases.append('ledger %d %d %d %d %d' % (ty, p1, rng.choice([1, 2]), rng.choice([1, 2, 3]), rng.choice([1, 2, 5])))
     louts = vlib.run_lines(lexe, lcases, timeout=1800)
     mlines = []
     for l, o in zip(lcases, louts):
@@ -126,7 +130,7 @@ def run(ctx):
         v = ints(o[2:]); sep = v.index(-1, 11); obs = v[11:sep]; after = v[sep + 1:]
         if after[0] != 0:
             ctx.report('delete-leaves-blocks', '%s: %d blocks (%d bytes) requested by new_<type> are still allocated after delete_<type>' % (l, after[0], after[1]), {'tool': 'ledger', 'lines': [l], 'observed': o[:600]})
-        if obs != ints(m):
+        if int(l.split()[1]) < 15 and obs != ints(m):
             ctx.soft('correspondence:ledger', '%s: blocks requested by new_<type> %s... differ from the ledger model %s...' % (l, obs[:8], ints(m)[:8]), {'tool': 'ledger', 'lines': [l], 'observed': obs[:200], 'model': ints(m)[:200]})
     for c in [(0, 3, 1, 2, 10, 8, 2), (0, 8, 2, 3, 7, 4, 4), (128, 0, 0, 0, 0, 0, 0)]:
         for tr in (0, 1):
